@@ -231,6 +231,8 @@ def _cat_dict(c):
          "numeric_value": c.get("numeric_value")}
     if "date" in c:
         d["date"] = c["date"]
+    if "selected" in c:
+        d["selected"] = c["selected"]      # an explicit flag on an ordinary (non-dichotomy) category
     return d
 
 
